@@ -156,6 +156,17 @@ class World:
 
 def _judge(before: Any, after: Any, resp: bytes, new: list[bytes],
            case: dict[str, Any], out: CaseOut, where: str) -> None:
+    n0 = len(out.failures)
+    _judge_inner(before, after, resp, new, case, out, where)
+    if where.startswith('timeout while waiting'):
+        # its own family of signatures: the command gave up on a lock that
+        # another process held for longer than FileLock retries
+        for f in out.failures[n0:]:
+            f.signature += ':after-lock-timeout'
+
+
+def _judge_inner(before: Any, after: Any, resp: bytes, new: list[bytes],
+                 case: dict[str, Any], out: CaseOut, where: str) -> None:
     kind = case['kind']
     if isinstance(after, RuntimeError):
         out.fail(f'server-stops-serving-after-fault:{kind}:'
@@ -247,11 +258,12 @@ def run_case(case: dict[str, Any]) -> CaseOut:
     inside = 0
     pos_count: dict[str, int] = {}
 
+    from harness.runner import load_known
+    listed = load_known(ID)
+
     def stop() -> bool:
-        # keep exploring behind the listed finding (a kill inside a maildir
-        # MULTIAPPEND), stop at anything else
-        return any(not f.signature.startswith(
-            'multiappend-half-applied-after-kill') for f in out.failures)
+        # keep exploring behind the listed findings, stop at anything else
+        return any(f.signature not in listed for f in out.failures)
 
     def fresh(**kw: Any) -> World:
         return World(case, **kw)
@@ -356,7 +368,9 @@ def run_case(case: dict[str, Any]) -> CaseOut:
             for nth in range(1, n_fs_all + 1):
                 if stop():
                     break
-                for how in ('cancel', 'eof'):
+                for how in ('cancel', 'eof', 'timeout'):
+                    if how == 'timeout' and nth % 3 != 2:
+                        continue     # every third position is enough
                     w = fresh()
                     try:
                         assert w.h is not None
@@ -383,9 +397,13 @@ def run_case(case: dict[str, Any]) -> CaseOut:
                         if blocked:
                             if how == 'cancel':
                                 w.c.task.cancel()
-                            else:
+                            elif how == 'eof':
                                 w.c.eof()
                                 w.c.task.cancel()
+                            else:
+                                # the other process keeps the lock until the
+                                # command gives up (NO [TIMEOUT])
+                                w.sim.settle(advance=40.0)
                         for lk in held:
                             if os.path.exists(lk):
                                 os.unlink(lk)
